@@ -122,3 +122,20 @@ Definition rtu_client_enc (m : mode) (h : hdr) (r : request) : outcome (list N) 
 
 Definition rtu_server_enc (m : mode) (h : hdr) (rr : rsp_result) : outcome (list N) :=
   _ <- rr_size_chk rr ;; pdu <- enc_rr m rr ;; Val (rtu_frame (snd h) pdu).
+
+(* ---- the decoder's record of skipped bytes (FrameDecoder::dropped_bytes) ----
+   It is written by recover_on_error (one byte per skipped byte; emptied first when it already holds
+   MAX_FRAME_LEN = 256 entries) and emptied when a frame passes its CRC check.  It only feeds log messages:
+   nothing the decoders return depends on it ([decode_loop] does not take it), but it is memory that lives
+   as long as the connection, so its size matters for "never bloats" (C03). *)
+Definition MAX_FRAME_LEN : N := 256.
+
+Definition record_skip (rec : list N) (b : N) : list N :=
+  (if MAX_FRAME_LEN <=? len rec then [] else rec) ++ [b].
+
+(* one decoder call: the bytes it dropped are recorded in order; a delivered frame empties the record *)
+Definition record_after {I} (rec : list N) (dropped : list N) (r : dres I) : list N :=
+  match r with
+  | DSome _ => []
+  | _ => fold_left record_skip dropped rec
+  end.
